@@ -13,9 +13,12 @@ from framework import pmap
 ID = 'C10'
 LEAN_MODULES = ['Pfst.Props.C10']
 THEOREMS = [
-    'Pfst.C10.wrapper_cols', 'Pfst.C10.wrapper_bytes', 'Pfst.C10.wrapper_pads_ascii', 'Pfst.C10.reparse_atomic', 'Pfst.C10.reparse_src',
-    'Pfst.C10.reparse_ok_iff_wrapper_parses', 'Pfst.C10.movePos_eq_offsetPos', 'Pfst.C10.reparse_eq_full_partial',
-    'Pfst.C10.reparse_eq_full_fixed_f6', 'Pfst.C10.reparse_eq_full_false', 'Pfst.C10.accepts_iff_valid_false',
+    'Pfst.C10.wrapper_cols', 'Pfst.C10.wrapper_bytes', 'Pfst.C10.wrapper_pads_ascii', 'Pfst.C10.reparse_atomic',
+    'Pfst.C10.reparse_src', 'Pfst.C10.reparse_ok_iff_wrapper_parses', 'Pfst.C10.raw_atomic', 'Pfst.C10.raw_src',
+    'Pfst.C10.raw_refuses_only_invalid', 'Pfst.C10.raw_valid_accepted', 'Pfst.C10.raw_fallback_is_full_parse',
+    'Pfst.C10.raw_eq_full_partial', 'Pfst.C10.raw_ok_iff_valid_partial', 'Pfst.C10.movePos_eq_offsetPos',
+    'Pfst.C10.reparse_eq_full_partial', 'Pfst.C10.reparse_eq_full_f6', 'Pfst.C10.tail_not_past_semicolon',
+    'Pfst.C10.guard_rejects_known_witnesses', 'Pfst.C10.f8_invalid_edit_refused', 'Pfst.C10.f9_valid_edit_accepted',
     'Pfst.C10.clip_in_range', 'Pfst.C10.ret_end_is_end_of_new_text',
     'Pfst.C10.raw_put_registry_restored', 'Pfst.C10.raw_put_outcome', 'Pfst.C10.raw_seq_registry_empty',
     'Pfst.C10.raw_seq_no_registry_error', 'Pfst.C10.leaky_seq_false',
@@ -36,14 +39,15 @@ RULE = ('histories of k<=6 raw edits on one live tree per corpus program, refuse
 TRUSTED = [
     'modelled (Pfst/Raw.lean): clip_src_loc; _reparse_raw_stmtlike region rule (elif -> parent, header-only rule, root -> '
     'end of source), copy_lines of every wrapper family, first_lineno, first_line_col_delta, wrapper path; order of '
-    'effects of _reparse_raw_base; the `with parent._modifying(False, True)` bracket of put_src(reparse) over the C12 registry '
+    'effects of _reparse_raw_base; the repaired _reparse_raw (guard: one node / same kind / same place / nothing after it, '
+    'else whole-source reparse with the root mode, no mode="all" retry for module roots); _tail_parent and '
+    '_set_end_pos(new, old); the `with parent._modifying(False, True)` bracket of put_src(reparse) over the C12 registry '
     'model (Pfst/RawSeq.lean) and histories of edits; tree effect (offset outside with tail=head=True, graft, first-line delta, header-only '
-    'merge with end copy, _set_end_pos for elif); returned (end_ln, end_col)',
+    'merge with end copy); returned (end_ln, end_col)',
     'inputs of the model taken from pfst helper functions, not modelled: parent_stmtlike, find_contains_loc, is_elif, bloc, '
     '_loc_block_header_end, _get_block_indent, syntax_ordered_children; _put_src text effect modelled at spec level (one '
     'formula); _offset is modelled in Pfst/Offset.lean (C11) and linked by movePos_eq_offsetPos',
-    'not modelled: the mode="all" fallback of the whole-source reparse (only its observable root-kind change is '
-    'classified), parse_match_case / parse_ExceptHandler (special path: text compared, result judged only by the full '
+    'not modelled: the mode="all" retry for non-module roots, parse_match_case / parse_ExceptHandler (special path: text compared, result judged only by the full '
     'parse), _set_ast / cache maintenance, the f/t-string parent rule of _reparse_raw, argument validation of raw puts',
     'excluded inputs: new sources ending in a backslash-newline (pfst parses these with an extra newline by documented '
     'convention; CPython rejects them); raw puts whose rectangle is not the CPython span of the node (location functions '
@@ -51,22 +55,23 @@ TRUSTED = [
 ]
 ASSUMPTIONS = [
     'CPython ast.parse on the plainly spliced text is the judge of validity and of the expected tree (root kind Module)',
-    'the hypotheses ParseLocal / AncestorEndsStable of reparse_eq_full_partial are evaluated per case through the model '
-    'tree (model tree == full parse); a failure of the implementation is a known class only when the implementation does '
-    'exactly what the model predicts and the model prediction itself differs from the full parse',
+    'GuardSound (the guard implies locality of the parser) is evaluated per case through the model tree on the incremental '
+    'path (model tree == full parse, tallied); the guard compares byte columns after the first-line delta where the code '
+    'compares character columns of `loc` (same line prefix)',
     'one call is one atomic step; a history continues on the same tree after every refusal and stops only when the tree no '
     'longer equals a parse of its source (after that no expected tree exists)',
 ]
-LEVEL_TEXT = ('Lean 4 theorems about an executable model of clip_src_loc, _reparse_raw_stmtlike, _reparse_raw_base and the '
-              'graft: wrapper lines keep every line number and character column of the region, byte delta formula, '
-              'parse-before-mutate atomicity, text = requested splice, success iff the wrapper parses, tree = full parse '
-              'under ParseLocal and AncestorEndsStable; machine-checked counterexamples for the full statement (stale '
-              'ancestor end, wrapper accepts/rejects differently from the whole source). Tied to /repo on every run by '
-              'recording what the real code hands to the parser and comparing text, path, deltas, return value and the '
-              'whole resulting tree with the model.')
-LEVEL_NOTE = ('The full property is FALSE on the pinned tree (known findings C10-F1..C10-F8): the proved theorem is the partial '
-              'one; the negations are proved on concrete instances and replayed on the implementation every run. CPython '
-              'is the judge for validity and for the expected tree.')
+LEVEL_TEXT = ('Lean 4 theorems about an executable model of clip_src_loc, _reparse_raw_stmtlike, _reparse_raw_base, the graft and '
+              'the repaired _reparse_raw (guard + whole-source fallback): wrapper lines keep every line number and character '
+              'column of the region, byte delta formula, atomicity, text = requested splice, refused only if the whole new '
+              'source is invalid and every valid new source accepted (full strength), fallback tree = full parse, registry empty '
+              'after any history; on the incremental path tree = full parse and accepted-only-if-valid under the explicit '
+              'hypothesis that the guard implies locality of the parser. Tied to /repo on every run by recording what the real '
+              'code hands to the parser and comparing text, path, deltas, return value, the path taken (incremental / fallback) '
+              'and the whole resulting tree with the model.')
+LEVEL_NOTE = ('Describes the code after the fixes C10-F1/F6/F4/F2; the former counterexamples are positive theorems now and their '
+              'witnesses are replayed every run (must pass). Remaining known finding: C10-F7 (NotImplementedError for a statement '
+              'starting at (0,1)..(0,3), pinned by the test-suite). CPython is the judge for validity and the expected tree.')
 TECHNIQUE = 'Lean 4 proof (list/zipper lemmas, omega, decide) + run-time recording correspondence + CPython-judged sweep'
 
 FINDINGS = Path(__file__).with_name('C10_findings.json')
@@ -140,7 +145,7 @@ def _pipeline(ctx, recs, plan_only=False):
     try:
         for (i, _), o in zip(tcases, ctx.lean([c for _, c in tcases])):
             o = o.get('out', o)
-            touts[i] = o if isinstance(o, list) else None
+            touts[i] = o if isinstance(o, dict) and 'tree' in o else None
     except Exception as e:
         ctx.brk('correspondence', 'C10 driver(tree)', f'driver error: {e}')
     eres = pmap(ops.phase_e, [(recs[i], plans[i] if i in set(todo) else None, cres[i], touts[i]) for i in range(len(recs))]) \
@@ -188,6 +193,7 @@ def _account(ctx, triples, corr_name):
         for sig, what in e['fail']:
             ctx.fail(sig, f'{r["op"]} {r["rect"]} <- {r["new"]!r}: {what}', _witness(r))
             ctx.tally('failure_signature', sig)
+            ctx.notes.setdefault('first_witness_per_signature', {}).setdefault(sig, {'what': what[:300], 'witness': _witness(r)})
     ctx.tally('correspondence_cases', corr_name)
     ctx.dist['correspondence_cases'][corr_name] = sum(1 for _, m, _ in triples if m is not None)
     if nbad:
@@ -290,9 +296,11 @@ def _replay_findings(ctx):
         return
     for f in json.loads(FINDINGS.read_text()):
         w = f['witness']
-        sigs = f.get('signatures') or [f['signature']]
+        sigs = f.get('signatures') or [f.get('signature')]
         got = _run_witness(ctx, w)
-        ctx.tally('finding_replayed', f['id'] + (':still-fails' if any(s in sigs for s, _ in got) else ':NOT-REPRODUCED'))
+        fixed = f.get('kind') == 'fixed'
+        ctx.tally('finding_replayed', f['id'] + ((':fixed-but-fails' if got else ':fixed-passes') if fixed else
+                                                  (':still-fails' if any(s in sigs for s, _ in got) else ':NOT-REPRODUCED')))
         if not got:
             ctx.notes.setdefault('findings_not_reproduced', []).append(f['id'])
         for sig, what in got:
@@ -453,7 +461,7 @@ def search(ctx):
             seeds.append(w['src'])
             for sig, what in _run_witness(ctx, w) if 'op' in w else []:
                 ctx.fail(sig, what, w)
-    progs = list(dict.fromkeys(seeds)) + _programs(ctx, 1200, 100)
+    progs = list(dict.fromkeys(seeds)) + _programs(ctx, 500, 40)
     mix = ['put_src'] * 7 + ['raw-put'] * 2 + ['reparse']
     recs = _gather(ctx, progs, 6, 8, mix)
     n = 0
